@@ -31,15 +31,81 @@ class Site:
         return "%s|%s#%d" % (self.fn.name, self.kind, ordinal)
 
 
+def _subst_params(e, mapping):
+    """replace ("param", k) nodes of an expression by the caller's argument expressions"""
+    if not isinstance(e, tuple):
+        return e
+    if len(e) == 2 and e[0] == "param" and e[1] in mapping:
+        return mapping[e[1]]
+    return tuple(_subst_params(x, mapping) for x in e)
+
+
+class VirtualSite(Site):
+    """a record built by a factory helper (`fn txt_record(&self, ..) -> DnsTxt { DnsTxt::new(..) }`), seen at the call of
+    the helper: the constructor's arguments with the helper's parameters replaced by what this caller passes"""
+
+    def __init__(self, P, fn, bb, t, inner):
+        self.P, self.fn, self.bb, self.t, self.kind = P, fn, bb, t, inner.kind
+        tr = tracer(P, fn)
+        mapping = {}
+        for i, a in enumerate(t["args"]):
+            mapping[i + 1] = tr.operand(a, endpos(fn, bb))
+        self.args = {k: _subst_params(v, mapping) for k, v in inner.args.items()}
+        self.dest = t["dest"]["l"] if not t["dest"]["proj"] else None
+        self.via = inner.fn.name
+
+
+def record_factories(P, _c={}):
+    """{fn name: inner Site}: crate functions that do nothing but build one record and return it"""
+    k = id(P)
+    if k in _c:
+        return _c[k]
+    out = {}
+    per = {}
+    for f in P.lib_fns():
+        if f.name == DECODER or f.is_closure or f.in_tests():
+            continue
+        for b, t in f.calls():
+            n = cname(t)
+            if n in CTORS and n in P.fns:
+                per.setdefault(f.name, []).append((f, b, t, CTORS[n]))
+    for name, sites in per.items():
+        if len(sites) != 1:
+            continue
+        f, b, t, kind = sites[0]
+        if t["dest"]["proj"]:
+            continue
+        tr = tracer(P, f)
+        rets = f.exits()
+        flows = bool(rets)
+        for rb in rets:
+            alts = strip(tr.local(0, endpos(f, rb)))
+            if not alts or not all(a[0] == "call" and a[3] == (f.name, b) for a in alts):
+                flows = False
+        # the helper adds nothing to a packet itself
+        sends = any(method(cname(tt)).startswith("add_") for _bb, tt in f.calls())
+        if flows and not sends:
+            out[name] = Site(P, f, b, t, kind)
+    _c[k] = out
+    return out
+
+
 def builder_sites(P, include_decoder=False):
     out = []
+    fac = record_factories(P)
     for f in P.lib_fns():
         if f.name == DECODER and not include_decoder:
             continue
         for b, t in f.calls():
             n = cname(t)
             if n in CTORS and n in P.fns:
+                if f.name in fac:
+                    continue        # represented at each call of the factory
                 out.append(Site(P, f, b, t, CTORS[n]))
+            else:
+                for tg in P.call_targets(t):
+                    if tg in fac and tg != f.name:
+                        out.append(VirtualSite(P, f, b, t, fac[tg]))
     # ordinals per (fn, kind)
     cnt = {}
     for s in out:
